@@ -20,7 +20,10 @@ func init() {
 			"R04b every cursor advance onto a freshly created node (direct store or call of an advance helper) is followed on every path by the candidate check before the next token is fetched or the function returns to the token loop (error returns excepted); " +
 			"R04c on the edge where the filter query fails the candidate is passed to RemoveAndReleaseTree and the holder is set to nil on every path before the function returns or input is consumed; " +
 			"R04d in Read, every path from the entry to the first input-consuming call either knows the holder to be nil or has released and cleared it; " +
-			"R04e every non-nil node returned along the call chain below Read originates from the wrap-up function (the function holding the delivering return), and every call of the wrap-up function sits in a closing-token region (type case encoding/xml.EndElement, json.Delim '}' / ']') or directly follows the attachment of a scalar text child with no cursor advance in between.",
+			"R04e every non-nil node returned along the call chain below Read originates from the wrap-up function (the function holding the delivering return), and every call of the wrap-up function sits in a closing-token region (type case encoding/xml.EndElement, json.Delim '}' / ']') or directly follows the attachment of a scalar text child with no cursor advance in between; " +
+			"R04g constructor agreement: in every function that fills a stream reader's two expression fields (the field queried by the marking decision and the field queried by the delivering decision), the candidate expression is compiled from the result of the filter-splitting function applied to a string S, the filter expression (where non-nil) is compiled from that very same value S, and the nil / non-nil choice of the filter expression is controlled only by a comparison of S with the split result (data-flow identity through local variable cells and closure captures; a trimmed or otherwise re-derived copy is a different value); " +
+			"R04h while a candidate may be open (holder not known to be nil on the path) every path through a type case encoding/xml.CharData attaches a child under the cursor before the next token is fetched or the function returns - no content-dependent condition may skip text inside a candidate (a skip guarded by holder == nil stays allowed); " +
+			"R04i the marking store, the delivering return and the rejecting RemoveAndReleaseTree are control dependent only on conditions over {cursor / holder identity and nil-ness, presence of the reader's expression fields, results of xpath queries}; any other branch condition on such a path (node content, counters, ...) is reported.",
 		NotDecided: "agreement with MatchAll on the loaded document, document order and subtree completeness beyond R04e; that the path xpath with the last filter removed is the right candidate test (removeLastFilterInXPath); the three JSON cases where the document root itself is candidate-checked without a cursor advance are not an obligation of R04b; O1 of DESIGN.md (no error latch in JSONStreamReader).",
 		Trusted: append([]string{"encoding/xml and encoding/json decoders deliver tokens in document order; end-element / closing-delimiter tokens are the only close events",
 			"input-consuming library entry points are the methods of bufio/encoding/{xml,json,csv}/go-corelib ios reader types and ios.ReadLine/ByteReadLine"}, commonTrusted...),
@@ -47,6 +50,22 @@ func init() {
 	control(Control{ID: "c04-wrapup-at-start", Prop: "C04", File: "idr/xmlreader.go",
 		Old: "\t\t\tsp.streamCandidateCheck()\n\t\tcase xml.EndElement:", New: "\t\t\tsp.streamCandidateCheck()\n\t\t\tif len(tok.Attr) > 100 {\n\t\t\t\tif ret := sp.wrapUpCurAndTargetCheck(); ret != nil {\n\t\t\t\t\treturn ret, nil\n\t\t\t\t}\n\t\t\t}\n\t\tcase xml.EndElement:",
 		Rule: "R04e", Substr: "XMLStreamReader).parse", Why: "wrap-up (cursor pop + delivery) outside a closing token"})
+	control(Control{ID: "c04-split-untrimmed", Prop: "C04", File: "idr/xmlreader.go",
+		Old:  "\txpathStr = strings.TrimSpace(xpathStr)\n\txpathNoFilterStr := removeLastFilterInXPath(xpathStr)\n\txpathExpr, err := caches.GetXPathExpr(xpathStr)",
+		New:  "\txpathNoFilterStr := removeLastFilterInXPath(xpathStr)\n\txpathExpr, err := caches.GetXPathExpr(strings.TrimSpace(xpathStr))",
+		Rule: "R04g", Substr: "idr.NewXMLStreamReader", Why: "the filter is split off the untrimmed string while the trimmed one is compiled: with trailing blanks the reader believes there is no filter"})
+	control(Control{ID: "c04-candidate-expr-unsplit", Prop: "C04", File: "idr/jsonreader.go",
+		Old: "xpathNoFilterExpr, _ := caches.GetXPathExpr(xpathNoFilterStr)", New: "xpathNoFilterExpr, _ := caches.GetXPathExpr(xpathStr)",
+		Rule: "R04g", Substr: "idr.NewJSONStreamReader", Why: "the open-time candidate test uses the full xpath including the final predicate"})
+	control(Control{ID: "c04-blank-text-dropped-in-candidate", Prop: "C04", File: "idr/xmlreader.go",
+		Old: "\t\tcase xml.CharData:\n", New: "\t\tcase xml.CharData:\n\t\t\tif sp.stream != nil && strings.TrimSpace(string(tok)) == \"\" {\n\t\t\t\tcontinue\n\t\t\t}\n",
+		Rule: "R04h", Substr: "XMLStreamReader).parse", Why: "whitespace-only text inside a candidate is dropped: delivered subtree incomplete, text predicates fail"})
+	control(Control{ID: "c04-delivery-extra-conjunct", Prop: "C04", File: "idr/jsonreader.go",
+		Old: "\tif sp.xpathFilterExpr == nil || MatchAny(sp.root, sp.xpathFilterExpr) {", New: "\tif sp.xpathFilterExpr == nil || (cur.FirstChild != nil && MatchAny(sp.root, sp.xpathFilterExpr)) {",
+		Rule: "R04i", Substr: "JSONStreamReader).wrapUpCurAndTargetCheck", Why: "an empty candidate is rejected without running the filter"})
+	control(Control{ID: "c04-mark-extra-conjunct", Prop: "C04", File: "idr/xmlreader.go",
+		Old: "\tif sp.xpathExpr != nil && sp.stream == nil && MatchAny(sp.root, sp.xpathExpr) {", New: "\tif sp.xpathExpr != nil && sp.stream == nil && sp.cur.Data != \"\" && MatchAny(sp.root, sp.xpathExpr) {",
+		Rule: "R04i", Substr: "XMLStreamReader).streamCandidateCheck", Why: "marking depends on node content"})
 	control(Control{ID: "c04-mark-without-query", Prop: "C04", File: "idr/jsonreader.go",
 		Old: "\tif sp.xpathExpr != nil && sp.stream == nil && MatchAny(sp.root, sp.xpathExpr) {\n", New: "\tif sp.xpathExpr != nil && sp.stream == nil {\n",
 		Rule: "R04a", Substr: "JSONStreamReader).streamCandidateCheck", Why: "candidate marked without consulting the path query"})
@@ -70,12 +89,18 @@ func runC04(c *core.Ctx) {
 		c04RuleC(e, r)
 		c04RuleD(e, r, "R04d")
 		c04RuleE(e, r)
+		c04RuleH(e, r)
+		c04RuleI(e, r)
 	}
 	c.Floor("R04a", 4, "2 readers x (candidate marking, delivery)")
 	c.Floor("R04b", 6, "XML element + attribute advance, JSON 4 element creations")
 	c.Floor("R04c", 2, "filter-failed edge of both wrap-up functions")
 	c.Floor("R04d", 2, "Read of both stream readers")
 	c.Floor("R04e", 11, "6 functions on the Read chains + 5 wrap-up call sites")
+	c04RuleG(e)
+	c.Floor("R04g", 6, "2 constructors x (candidate expr from split result, filter expr from split input, presence decided by comparing the two)")
+	c.Floor("R04h", 1, "XML CharData case")
+	c.Floor("R04i", 6, "2 readers x (marking store, delivering return, rejecting removal)")
 	c04OuterMostOnly(c)
 }
 
@@ -695,4 +720,711 @@ func c04CloseRegion(b *ssa.BasicBlock) string {
 		}
 	}
 	return ""
+}
+
+// ---------------------------------------------------------------- R04g
+
+// c04ExprFields resolves, for a stream reader, the expression field queried by the marking decision (path)
+// and the one queried by the delivering decision (filter): the reader fields of type *xpath.Expr that are
+// loaded as arguments of the query call controlling the decision.
+func c04ExprFields(e *c04Env, r *c04Reader) (path, filter *types.Var) {
+	isExprFld := func(v ssa.Value) *types.Var {
+		f, fa := c04FieldLoad(v)
+		if f == nil || fa == nil {
+			return nil
+		}
+		if n := core.FieldOwner(fa); n == nil || n.Obj() != r.tn {
+			return nil
+		}
+		if pkg, name := c04NamedPath(f.Type()); pkg != "github.com/antchfx/xpath" || name != "Expr" {
+			return nil
+		}
+		return f
+	}
+	pick := func(ds []*c04Decision) *types.Var {
+		var out *types.Var
+		for _, d := range ds {
+			_, calls := c04QueryIfs(e, d.fn, d.instr.Block())
+			for _, qs := range calls {
+				for _, q := range qs {
+					if c04IsXPathEval(q) {
+						continue
+					}
+					for _, a := range q.Common().Args {
+						if f := isExprFld(a); f != nil {
+							if out != nil && out != f {
+								return nil
+							}
+							out = f
+						}
+					}
+				}
+			}
+		}
+		return out
+	}
+	return pick(r.marks), pick(r.deliv)
+}
+
+// c04Src normalises a value to its data-flow source inside one function and its closures: a load of a local
+// variable cell (or of a closure's captured cell) becomes the value last stored into the cell - provided
+// exactly one store dominates the load and no other store can reach it; everything else is its own source.
+func c04Src(v ssa.Value, at ssa.Instruction, depth int) ssa.Value {
+	if depth > 8 {
+		return v
+	}
+	u, ok := v.(*ssa.UnOp)
+	if !ok || u.Op != token.MUL {
+		return v
+	}
+	if at == nil {
+		at = u
+	}
+	switch a := u.X.(type) {
+	case *ssa.Alloc:
+		return c04CellValue(a, at, v, depth)
+	case *ssa.FreeVar:
+		fn := a.Parent()
+		par := fn.Parent()
+		if par == nil {
+			return v
+		}
+		idx := -1
+		for i, fv := range fn.FreeVars {
+			if fv == a {
+				idx = i
+			}
+		}
+		var mc *ssa.MakeClosure
+		for _, b := range par.Blocks {
+			for _, in := range b.Instrs {
+				if m, ok := in.(*ssa.MakeClosure); ok && m.Fn == ssa.Value(fn) {
+					if mc != nil {
+						return v // created at several places
+					}
+					mc = m
+				}
+			}
+		}
+		if mc == nil || idx < 0 || idx >= len(mc.Bindings) {
+			return v
+		}
+		cell, ok := mc.Bindings[idx].(*ssa.Alloc)
+		if !ok {
+			return v
+		}
+		return c04CellValue(cell, mc, v, depth)
+	}
+	return v
+}
+
+// c04CellValue: the value held by the local cell at instruction `at` (dflt if it cannot be determined).
+func c04CellValue(cell *ssa.Alloc, at ssa.Instruction, dflt ssa.Value, depth int) ssa.Value {
+	var stores []*ssa.Store
+	for _, r := range core.Referrers(cell) {
+		switch x := r.(type) {
+		case *ssa.Store:
+			if x.Addr != ssa.Value(cell) {
+				return dflt // the cell's address is stored somewhere
+			}
+			stores = append(stores, x)
+		case *ssa.UnOp, *ssa.DebugRef:
+		case *ssa.MakeClosure:
+			// a closure that writes the cell makes its content unknown
+			if fn, ok := x.Fn.(*ssa.Function); ok {
+				for i, bnd := range x.Bindings {
+					if bnd != ssa.Value(cell) || i >= len(fn.FreeVars) {
+						continue
+					}
+					for _, r2 := range core.Referrers(fn.FreeVars[i]) {
+						if st, ok := r2.(*ssa.Store); ok && st.Addr == ssa.Value(fn.FreeVars[i]) {
+							return dflt
+						}
+						if _, isLoad := r2.(*ssa.UnOp); !isLoad {
+							if _, isDbg := r2.(*ssa.DebugRef); !isDbg {
+								if _, isSt := r2.(*ssa.Store); !isSt {
+									return dflt
+								}
+							}
+						}
+					}
+				}
+			}
+		default:
+			return dflt
+		}
+	}
+	var last *ssa.Store
+	for _, st := range stores {
+		if !core.Dominates(st, at) {
+			// a store that does not dominate the use but can reach it makes the content path dependent
+			if st.Block() == at.Block() || c04ReachBlocks(st.Block())[at.Block()] {
+				return dflt
+			}
+			continue
+		}
+		if last == nil || core.Dominates(last, st) {
+			last = st
+		}
+	}
+	if last == nil {
+		return dflt
+	}
+	// a dominating store executed again after `last` on a loop back edge is not modelled: constructors are loop free here
+	return c04Src(last.Val, last, depth+1)
+}
+
+// c04CompileCall: v is (the first result of) a call that compiles a string into an *xpath.Expr; returns the
+// call and its string argument.
+func c04CompileCall(v ssa.Value) (ssa.CallInstruction, ssa.Value) {
+	if ex, ok := v.(*ssa.Extract); ok && ex.Index == 0 {
+		v = ex.Tuple
+	}
+	call, ok := v.(*ssa.Call)
+	if !ok {
+		return nil, nil
+	}
+	res := call.Call.Signature().Results()
+	if res.Len() == 0 {
+		return nil, nil
+	}
+	if pkg, name := c04NamedPath(res.At(0).Type()); pkg != "github.com/antchfx/xpath" || name != "Expr" {
+		return nil, nil
+	}
+	for i := 1; i < res.Len(); i++ {
+		if pkg, name := c04NamedPath(res.At(i).Type()); pkg == "github.com/antchfx/xpath" && name == "Expr" {
+			return nil, nil // a helper producing several expressions, not a compile call
+		}
+	}
+	for _, a := range call.Call.Args {
+		if b, ok := a.Type().Underlying().(*types.Basic); ok && b.Kind() == types.String {
+			return call, a
+		}
+	}
+	return nil, nil
+}
+
+// c04Leaves expands a value into the values it may take: through phis, local cells / closure captures and the
+// returns of immediately called closures and static repository callees. Each leaf comes with the instruction
+// at which the choice is made (the return, or the terminator of the phi's predecessor block).
+type c04Leaf struct {
+	val  ssa.Value
+	at   ssa.Instruction
+	edge *c04Edge // for a phi operand: the branch edge it arrives on, when the predecessor ends in a branch
+}
+
+func c04Leaves(v ssa.Value, at ssa.Instruction, depth int) []c04Leaf {
+	if depth > 6 {
+		return []c04Leaf{{val: v, at: at}}
+	}
+	v = c04Src(v, at, 0)
+	switch x := v.(type) {
+	case *ssa.Extract:
+		// a result of a repository helper that is not itself a compile call: the helper's returns decide
+		if cc, _ := c04CompileCall(x); cc != nil {
+			break
+		}
+		if call, ok := x.Tuple.(*ssa.Call); ok {
+			if cf := call.Call.StaticCallee(); cf != nil && cf.Blocks != nil && core.InRepo(core.FuncPkg(cf)) {
+				var out []c04Leaf
+				for _, b := range cf.Blocks {
+					for _, in := range b.Instrs {
+						if rt, ok := in.(*ssa.Return); ok && x.Index < len(rt.Results) {
+							if c04AbortReturn(rt) && core.IsNilConst(rt.Results[x.Index]) {
+								continue // error exit of the helper: no reader is built
+							}
+							out = append(out, c04Leaves(rt.Results[x.Index], rt, depth+1)...)
+						}
+					}
+				}
+				return out
+			}
+		}
+	case *ssa.Phi:
+		var out []c04Leaf
+		for i, ed := range x.Edges {
+			pb := x.Block().Preds[i]
+			sub := c04Leaves(ed, pb.Instrs[len(pb.Instrs)-1], depth+1)
+			if len(pb.Succs) == 2 {
+				for si, sb := range pb.Succs {
+					if sb == x.Block() {
+						for k := range sub {
+							if sub[k].edge == nil && sub[k].at == pb.Instrs[len(pb.Instrs)-1] {
+								sub[k].edge = &c04Edge{pb, si}
+							}
+						}
+					}
+				}
+			}
+			out = append(out, sub...)
+		}
+		return out
+	case *ssa.Call:
+		var fn *ssa.Function
+		if mc, ok := x.Call.Value.(*ssa.MakeClosure); ok {
+			fn, _ = mc.Fn.(*ssa.Function)
+		} else if cf := x.Call.StaticCallee(); cf != nil && cf.Blocks != nil && core.InRepo(core.FuncPkg(cf)) && len(cf.Params) == 0 {
+			fn = cf
+		}
+		if fn == nil || fn.Signature.Results().Len() != 1 {
+			return []c04Leaf{{val: v, at: at}}
+		}
+		var out []c04Leaf
+		for _, b := range fn.Blocks {
+			for _, in := range b.Instrs {
+				if rt, ok := in.(*ssa.Return); ok && len(rt.Results) == 1 {
+					out = append(out, c04Leaves(rt.Results[0], rt, depth+1)...)
+				}
+			}
+		}
+		return out
+	}
+	return []c04Leaf{{val: v, at: at}}
+}
+
+func c04IsString(t types.Type) bool {
+	b, ok := t.Underlying().(*types.Basic)
+	return ok && b.Info()&types.IsString != 0
+}
+
+func c04RuleG(e *c04Env) {
+	c := e.c
+	for _, r := range e.readers {
+		pathFld, filterFld := c04ExprFields(e, r)
+		if pathFld == nil || filterFld == nil || pathFld == filterFld {
+			c.Unresolved("R04g", "expression fields of "+c04TypeKey(r.tn), "cannot tell the candidate expression field from the filter expression field (fields of type *xpath.Expr loaded by the queries of the marking / delivering decisions)")
+			continue
+		}
+		// functions that fill the expression fields
+		type ctor struct {
+			fn            *ssa.Function
+			pathSt, filSt *ssa.Store
+		}
+		var ctors []*ctor
+		for _, f := range e.fns {
+			var ct *ctor
+			for _, b := range f.Blocks {
+				for _, in := range b.Instrs {
+					st, ok := in.(*ssa.Store)
+					if !ok {
+						continue
+					}
+					fa, ok := st.Addr.(*ssa.FieldAddr)
+					if !ok {
+						continue
+					}
+					fld := core.FieldOfAddr(fa)
+					if fld != pathFld && fld != filterFld {
+						continue
+					}
+					if ct == nil {
+						ct = &ctor{fn: f}
+						ctors = append(ctors, ct)
+					}
+					if fld == pathFld {
+						ct.pathSt = st
+					} else {
+						ct.filSt = st
+					}
+				}
+			}
+		}
+		if len(ctors) == 0 {
+			c.Unresolved("R04g", "constructor of "+c04TypeKey(r.tn), "no function stores the reader's expression fields")
+		}
+		for _, ct := range ctors {
+			base := core.FuncKey(ct.fn)
+			k1 := base + " candidate expression compiled from the split result"
+			k2 := base + " filter expression compiled from the split input"
+			k3 := base + " filter presence decided by comparing split input and split result"
+			if ct.pathSt == nil || ct.filSt == nil {
+				c.Unknown("R04g", k1, ct.fn.Pos(), "the function stores only one of the two expression fields ("+pathFld.Name()+", "+filterFld.Name()+"): cannot relate them")
+				continue
+			}
+			// (1) candidate expression = compile(split(S))
+			var pv ssa.Value
+			for _, lf := range c04Leaves(ct.pathSt.Val, ct.pathSt, 0) {
+				if core.IsNilConst(lf.val) {
+					continue
+				}
+				if pv != nil && pv != lf.val {
+					pv = nil
+					break
+				}
+				pv = lf.val
+			}
+			pc, parg := c04CompileCall(pv)
+			var sIn, sNF ssa.Value
+			var split *ssa.Function
+			if pc != nil {
+				sNF = c04Src(parg, pc, 0)
+				// a library string -> string wrapper around the split result (strings.TrimSpace ...) is looked through
+				// on this side only: it cannot change which predicate was split off
+				for i := 0; i < 3; i++ {
+					wc, ok := sNF.(*ssa.Call)
+					if !ok || wc.Call.StaticCallee() == nil || core.InRepo(core.FuncPkg(wc.Call.StaticCallee())) || len(wc.Call.Args) != 1 || !c04IsString(wc.Call.Args[0].Type()) || !c04IsString(wc.Type()) {
+						break
+					}
+					sNF = c04Src(wc.Call.Args[0], wc, 0)
+				}
+				if sc, ok := sNF.(*ssa.Call); ok {
+					if cf := sc.Call.StaticCallee(); cf != nil && core.InRepo(core.FuncPkg(cf)) && len(sc.Call.Args) == 1 && c04IsString(sc.Call.Args[0].Type()) && c04IsString(sc.Type()) {
+						split = cf
+						sIn = c04Src(sc.Call.Args[0], sc, 0)
+					}
+				}
+			}
+			if split == nil {
+				c.Bad("R04g", k1, core.InstrPos(ct.pathSt), "the expression stored into "+pathFld.Name()+" (queried when a node is opened) is not compiled from the result of the filter-splitting function (a repository function string -> string): the final predicate would be evaluated on a still incomplete node")
+				continue
+			}
+			c.OK("R04g", k1, core.InstrPos(ct.pathSt), pathFld.Name()+" = compile("+core.FuncKey(split)+"(S))")
+			// (2) filter expression leaves
+			leaves := c04Leaves(ct.filSt.Val, ct.filSt, 0)
+			bad2, nNil, nExpr := "", 0, 0
+			for _, lf := range leaves {
+				if core.IsNilConst(lf.val) {
+					nNil++
+					continue
+				}
+				fc, farg := c04CompileCall(lf.val)
+				if fc == nil {
+					bad2 = "a value stored into " + filterFld.Name() + " is not the result of compiling a string"
+					continue
+				}
+				nExpr++
+				if c04Src(farg, fc, 0) != sIn {
+					bad2 = "the string compiled into " + filterFld.Name() + " and the string handed to " + core.FuncKey(split) + " are different values (one of them is re-derived, e.g. trimmed separately): where they differ the split does not see what is compiled - the final predicate is not split off, the full xpath is tested when a node is opened and never when it is complete"
+				}
+			}
+			if bad2 != "" {
+				c.Bad("R04g", k2, core.InstrPos(ct.filSt), bad2)
+			} else {
+				c.OK("R04g", k2, core.InstrPos(ct.filSt), "same value is split and compiled")
+			}
+			// (3) the nil / non-nil choice
+			if nNil == 0 || nExpr == 0 {
+				c.OK("R04g", k3, core.InstrPos(ct.filSt), "no choice: the filter field is always / never set here")
+				continue
+			}
+			bad3 := ""
+			decided := 0
+			for _, lf := range leaves {
+				fn := lf.at.Parent()
+				good := false
+				ctrl := e.cd(fn).controlling(lf.at.Block())
+				if lf.edge != nil {
+					ctrl = append(ctrl, *lf.edge)
+				}
+				for _, ed := range ctrl {
+					ifi := ed.ifInstr()
+					if ifi == nil {
+						continue
+					}
+					bo, ok := c04Src(ifi.Cond, ifi, 0).(*ssa.BinOp)
+					if !ok || !c04IsString(bo.X.Type()) {
+						continue
+					}
+					a, b := c04Src(bo.X, bo, 0), c04Src(bo.Y, bo, 0)
+					if (bo.Op == token.EQL || bo.Op == token.NEQ) && ((a == sIn && b == sNF) || (a == sNF && b == sIn)) {
+						good = true
+					} else {
+						bad3 = "whether " + filterFld.Name() + " is set depends on a string comparison whose operands are not exactly the split input and the split result"
+					}
+				}
+				if good {
+					decided++
+				}
+			}
+			switch {
+			case bad3 != "":
+				c.Bad("R04g", k3, core.InstrPos(ct.filSt), bad3)
+			case decided != len(leaves):
+				c.Bad("R04g", k3, core.InstrPos(ct.filSt), "the choice between a nil and a compiled "+filterFld.Name()+" is not controlled by comparing the split input with the split result")
+			default:
+				c.OK("R04g", k3, core.InstrPos(ct.filSt), "has-filter decided by S != split(S)")
+			}
+		}
+	}
+}
+
+// ---------------------------------------------------------------- R04h
+
+// c04TypeCaseEntry: the block entered when the comma-ok type assertion succeeds (nil if not of that form).
+func c04TypeCaseEntry(ta *ssa.TypeAssert) *ssa.BasicBlock {
+	if !ta.CommaOk {
+		return nil
+	}
+	for _, u := range core.Referrers(ta) {
+		ex, ok := u.(*ssa.Extract)
+		if !ok || ex.Index != 1 {
+			continue
+		}
+		for _, u2 := range core.Referrers(ex) {
+			if ifi, ok := u2.(*ssa.If); ok && len(ifi.Block().Succs) == 2 && len(ifi.Block().Succs[0].Preds) == 1 {
+				return ifi.Block().Succs[0]
+			}
+		}
+	}
+	return nil
+}
+
+func c04RuleH(e *c04Env, r *c04Reader) {
+	c := e.c
+	const knownNil = 1
+	isHolderLoad := func(v ssa.Value) bool { return c04IsLoadOf(v, r.holder) }
+	for _, m := range r.methods {
+		for _, b := range m.Blocks {
+			for _, in := range b.Instrs {
+				ta, ok := in.(*ssa.TypeAssert)
+				if !ok {
+					continue
+				}
+				if pkg, name := c04NamedPath(ta.AssertedType); pkg != "encoding/xml" || name != "CharData" {
+					continue
+				}
+				key := core.FuncKey(m) + " attaches encoding/xml.CharData inside an open candidate"
+				entry := c04TypeCaseEntry(ta)
+				if entry == nil {
+					c.Unknown("R04h", key, core.InstrPos(ta), "cannot find the branch on the type test")
+					continue
+				}
+				why := ""
+				fail, _ := c04WalkInl(entry, 0, 0, func(w *c04Walker, in ssa.Instruction, st int) (int, int) {
+					switch x := in.(type) {
+					case *ssa.Store:
+						if v, ok := c04StoreTo(x, r.holder); ok && !core.IsNilConst(v) {
+							return st &^ knownNil, c04Cont
+						}
+					case ssa.CallInstruction:
+						cf := x.Common().StaticCallee()
+						if cf == e.addChild && c04IsLoadOf(x.Common().Args[0], r.cur) {
+							return st, c04Stop
+						}
+						if cf != nil && e.isMethodOf(r, cf) && w.canDescend(x) {
+							return st, c04Descend
+						}
+						if e.attachSite(r, in) || e.advanceSite(r, in) {
+							return st, c04Stop
+						}
+						if e.consumes(x) {
+							if st&knownNil != 0 {
+								return st, c04Stop
+							}
+							why = "the next token is fetched (" + c04CalleeKey(x) + ")"
+							return st, c04Fail
+						}
+					case *ssa.Return:
+						if st&knownNil != 0 || c04AbortReturn(x) {
+							return st, c04Stop
+						}
+						why = "the function returns"
+						return st, c04Fail
+					case *ssa.Panic:
+						return st, c04Stop
+					}
+					return st, c04Cont
+				}, func(w *c04Walker, from *ssa.BasicBlock, succ int, st int) int {
+					if k := c04NilTestEdge(from, isHolderLoad); k >= 0 && k == succ {
+						return st | knownNil
+					}
+					return st
+				})
+				if fail != nil {
+					c.Bad("R04h", key, core.InstrPos(fail), "on a path where a candidate may be open ("+r.holder.Name()+" not known to be nil) "+why+" without the character data having been attached under the cursor: text inside a candidate is dropped, so the delivered subtree is incomplete and predicates on text / child values see less than the document contains")
+				} else {
+					c.OK("R04h", key, core.InstrPos(ta), "every path with a possibly open candidate attaches the text before the next fetch / return")
+				}
+			}
+		}
+	}
+}
+
+// ---------------------------------------------------------------- R04i
+
+// c04StateCond: the condition only speaks about the reader's selection state: cursor / holder identity and
+// nil-ness, presence of expression fields, and results of xpath queries.
+func c04StateCond(e *c04Env, r *c04Reader, cond ssa.Value) (bool, string) {
+	seen := map[ssa.Value]bool{}
+	bind := map[*ssa.Parameter]ssa.Value{}
+	var leaf func(v ssa.Value, d int) (bool, string)
+	leaf = func(v ssa.Value, d int) (bool, string) {
+		if v == nil || seen[v] {
+			return true, ""
+		}
+		seen[v] = true
+		if d > 12 {
+			return false, "expression too deep"
+		}
+		switch x := v.(type) {
+		case *ssa.Const:
+			return true, ""
+		case *ssa.Parameter:
+			if a, ok := bind[x]; ok {
+				if n := core.NamedOf(a.Type()); n != nil && n.Obj() == r.tn {
+					return true, "" // the reader itself
+				}
+				return leaf(a, d+1)
+			}
+			return false, "a parameter (" + x.Name() + ")"
+		case *ssa.BinOp:
+			if ok, w := leaf(x.X, d+1); !ok {
+				return false, w
+			}
+			return leaf(x.Y, d+1)
+		case *ssa.UnOp:
+			if x.Op != token.MUL {
+				return leaf(x.X, d+1)
+			}
+			f, fa := c04FieldLoad(x)
+			if f == nil {
+				return false, "a value loaded from memory (" + x.Name() + ")"
+			}
+			if n := core.FieldOwner(fa); n != nil && n.Obj() == r.tn {
+				if f == r.cur || f == r.holder {
+					return true, ""
+				}
+				if pkg, name := c04NamedPath(f.Type()); pkg == "github.com/antchfx/xpath" && name == "Expr" {
+					return true, ""
+				}
+				return false, "reader field " + f.Name()
+			}
+			if n := core.FieldOwner(fa); n != nil {
+				return false, "field " + n.Obj().Name() + "." + f.Name()
+			}
+			return false, "field " + f.Name()
+		case *ssa.Phi:
+			for _, ed := range x.Edges {
+				if ok, w := leaf(ed, d+1); !ok {
+					return false, w
+				}
+			}
+			return true, ""
+		case *ssa.Extract:
+			return leaf(x.Tuple, d+1)
+		case *ssa.ChangeType:
+			return leaf(x.X, d+1)
+		case *ssa.Call:
+			if e.isQueryResultCall(x) {
+				return true, ""
+			}
+			if _, isBuiltin := x.Call.Value.(*ssa.Builtin); isBuiltin {
+				for _, a := range x.Call.Args {
+					if ok, w := leaf(a, d+1); !ok {
+						return false, w
+					}
+				}
+				return true, ""
+			}
+			// a value computed from a query result (nodeFromIter(iter), ...)
+			if c04DependsOn(x, func(y ssa.Value) bool {
+				ci, ok := y.(ssa.CallInstruction)
+				return ok && y != ssa.Value(x) && e.isQueryResultCall(ci)
+			}) {
+				return true, ""
+			}
+			// a predicate method of the reader whose results are themselves state conditions
+			if cf := x.Call.StaticCallee(); cf != nil && e.isMethodOf(r, cf) && cf.Blocks != nil && d < 4 {
+				for i, p := range cf.Params {
+					if i < len(x.Call.Args) {
+						bind[p] = x.Call.Args[i]
+					}
+				}
+				for _, b := range cf.Blocks {
+					for _, in := range b.Instrs {
+						if rt, ok := in.(*ssa.Return); ok {
+							for _, rv := range rt.Results {
+								if ok, w := leaf(rv, d+1); !ok {
+									return false, w
+								}
+							}
+							for _, ed := range e.cd(cf).controlling(b) {
+								if ifi := ed.ifInstr(); ifi != nil {
+									if ok, w := leaf(ifi.Cond, d+1); !ok {
+										return false, w
+									}
+								}
+							}
+						}
+					}
+				}
+				return true, ""
+			}
+			return false, "result of " + c04CalleeKey(x)
+		case *ssa.Index, *ssa.Lookup, *ssa.Slice, *ssa.Next, *ssa.Range, *ssa.TypeAssert, *ssa.MakeInterface:
+			if c04DependsOn(v, func(y ssa.Value) bool {
+				ci, ok := y.(ssa.CallInstruction)
+				return ok && e.isQueryResultCall(ci)
+			}) {
+				return true, ""
+			}
+			return false, "a computed value (" + v.Name() + ")"
+		}
+		return false, "a value of kind " + strings.TrimPrefix(strings.TrimPrefix(c04KindName(v), "*ssa."), "ssa.")
+	}
+	return leaf(cond, 0)
+}
+
+func c04KindName(v interface{}) string {
+	switch v.(type) {
+	case *ssa.Parameter:
+		return "parameter"
+	case *ssa.FreeVar:
+		return "captured variable"
+	case *ssa.Global:
+		return "global"
+	}
+	return "other"
+}
+
+func c04RuleI(e *c04Env, r *c04Reader) {
+	c := e.c
+	type site struct {
+		fn   *ssa.Function
+		in   ssa.Instruction
+		what string
+	}
+	var sites []site
+	for _, d := range r.marks {
+		sites = append(sites, site{d.fn, d.instr, "marks candidate"})
+	}
+	for _, d := range r.deliv {
+		if r.wrapFn[d.fn] {
+			sites = append(sites, site{d.fn, d.instr, "delivers candidate"})
+		}
+	}
+	for f := range r.wrapFn {
+		for _, ci := range core.Calls(f) {
+			if ci.Common().StaticCallee() == e.remove && c04IsLoadOf(ci.Common().Args[0], r.holder) {
+				sites = append(sites, site{f, ci, "rejects candidate"})
+			}
+		}
+	}
+	sort.SliceStable(sites, func(i, j int) bool {
+		a, b := core.FuncKey(sites[i].fn)+sites[i].what, core.FuncKey(sites[j].fn)+sites[j].what
+		if a != b {
+			return a < b
+		}
+		return sites[i].in.Pos() < sites[j].in.Pos()
+	})
+	for _, s := range sites {
+		key := core.FuncKey(s.fn) + " " + s.what + " under selection-state conditions only"
+		bad := ""
+		var badPos token.Pos
+		for _, ed := range e.cd(s.fn).controlling(s.in.Block()) {
+			ifi := ed.ifInstr()
+			if ifi == nil {
+				bad, badPos = "a non-boolean branch (switch / type switch)", core.InstrPos(ed.from.Instrs[len(ed.from.Instrs)-1])
+				continue
+			}
+			if ok, what := c04StateCond(e, r, ifi.Cond); !ok {
+				bad, badPos = what, core.InstrPos(ifi)
+			}
+		}
+		if bad != "" {
+			c.Bad("R04i", key, badPos, "this decision is also control dependent on a condition over "+bad+", which is neither the cursor/candidate identity, nor the presence of an expression, nor the result of an xpath query: whether a node is selected no longer depends only on the target xpath")
+		} else {
+			c.OK("R04i", key, core.InstrPos(s.in), "controlled only by cursor/candidate identity, expression presence and query results")
+		}
+	}
 }
